@@ -798,6 +798,167 @@ def fresh_dir_case(rng, sess: Session):
             sess.nontrivial.add(chash(("fresh", nt, inj[0])))
 
 
+def capture_case(rng, sess: Session):
+    """Deferred writing (log capture): writers append through the public writer while captures are opened, nested
+    (`use_mux`, the orchestrator's begin/end helpers, the compute phase of the batch driver) and closed again, each closed
+    capture being flushed where it was opened.  Model: a stack of buffers per writer; a record goes into the innermost open
+    buffer or to disk; a flushed buffer is replayed into whatever is innermost then.  At every step the files hold exactly
+    the model's disk content: each record once, a writer's records in the order they were emitted, nothing on disk early."""
+    import clematis.engine.orchestrator as orch
+    import clematis.engine.orchestrator.core as orch_core
+    import clematis.engine.orchestrator.parallel as orch_par
+    from clematis.engine.util import logmux
+    from clematis.io.log import append_jsonl
+    from types import SimpleNamespace as SNS
+
+    nthreads = rng.choice([1, 1, 2, 3])
+    scripts = []
+    for w in range(nthreads):
+        ops, depth = [], 0
+        for _ in range(rng.randint(4, 18)):
+            r = rng.random()
+            if r < 0.45:
+                ops.append(("rec", rng.choice(["own", "own", "shared"])))
+            elif r < 0.65 and depth < 3:
+                ops.append(("open", rng.choice(["use_mux", "helpers"])))
+                depth += 1
+            elif r < 0.85 and depth > 0:
+                ops.append(("close", rng.choice(["flush", "flush", "drop"])))
+                depth -= 1
+            else:
+                ops.append(("compute", rng.randint(0, 3)))
+        while depth:
+            ops.append(("close", "flush"))
+            depth -= 1
+        scripts.append(ops)
+    case = {"capture_scripts": scripts}
+    with tmpdir("c16m_") as d:
+        old_env = {k: os.environ.get(k) for k in ("CLEMATIS_LOG_DIR", "CI")}
+        os.environ["CLEMATIS_LOG_DIR"] = d
+        os.environ.pop("CI", None)
+        real_run_turn = orch_core.Orchestrator.run_turn
+
+        def fake_run_turn(self, ctx, state, input_text):  # the stages of the compute phase: they only log
+            for j in range(int(input_text)):
+                append_jsonl("t1.jsonl", {"turn": ctx.turn_id, "agent": ctx.agent_id, "j": j})
+            return None
+
+        problems = []
+        lock = threading.Lock()
+
+        def on_disk(name):
+            pth = os.path.join(d, name)
+            if not os.path.exists(pth):
+                return []
+            raw = open(pth, "rb").read()
+            return [json.loads(x) for x in raw.split(b"\n") if x]
+
+        def writer(w):
+            try:
+                stack = []       # [(kind, real handle, model buffer)]
+                disk = []        # model of this writer's records on disk, in order: (stream, rec)
+                n = 0
+
+                def emit(stream, rec):
+                    (stack[-1][2] if stack else disk).append((stream, rec))
+
+                def check(step):
+                    for stream in (f"w{w}.jsonl",):
+                        want = [r for s_, r in disk if s_ == stream]
+                        got = on_disk(stream)
+                        if got != want:
+                            problems.append({"writer": w, "step": step, "stream": stream, "on_disk": got[:8], "model": want[:8]})
+                            return False
+                    top = logmux.LOG_MUX.get()
+                    want_top = stack[-1][1]["mux"] if stack else None
+                    if top is not want_top:
+                        problems.append({"writer": w, "step": step, "active_capture": "not the innermost open one" if top is not None else "none although one is open"})
+                        return False
+                    return True
+
+                for step, (op, arg) in enumerate(scripts[w]):
+                    if op == "rec":
+                        stream = f"w{w}.jsonl" if arg == "own" else "shared.jsonl"
+                        rec = {"w": w, "n": n}
+                        n += 1
+                        append_jsonl(stream, rec)
+                        emit(stream, rec)
+                    elif op == "open":
+                        if arg == "use_mux":
+                            m = logmux.LogMux()
+                            cm = logmux.use_mux(m)
+                            cm.__enter__()
+                            stack.append((arg, {"mux": m, "cm": cm}, []))
+                        else:
+                            m, tok = orch._begin_log_capture()
+                            stack.append((arg, {"mux": m, "tok": tok}, []))
+                    elif op == "close":
+                        kind, h, buf = stack.pop()
+                        pairs = h["mux"].dump()
+                        if kind == "use_mux":
+                            h["cm"].__exit__(None, None, None)
+                        else:
+                            orch._end_log_capture(h["tok"])
+                        if [(s_, r) for s_, r in pairs] != buf:
+                            problems.append({"writer": w, "step": step, "capture_holds": pairs[:8], "model": buf[:8]})
+                            break
+                        if arg == "flush":
+                            logmux.flush(pairs)
+                            for s_, r in buf:
+                                emit(s_, r)
+                    else:
+                        ctx = SNS(cfg={}, config={}, turn_id=100 * w + step, slice_idx=0)
+                        b = orch_par._run_turn_compute(ctx, {}, f"A{w}", str(arg))
+                        want = [("t1.jsonl", {"turn": 100 * w + step, "agent": f"A{w}", "j": j}) for j in range(arg)]
+                        if [(s_, r) for s_, r in b["logs"]] != want:
+                            problems.append({"writer": w, "step": step, "compute_buffer": b["logs"][:6], "model": want[:6]})
+                            break
+                    if not check(step):
+                        break
+                with lock:
+                    results[w] = disk
+            except Exception as ex:
+                import traceback
+                problems.append({"writer": w, "raised": f"{type(ex).__name__}: {ex}"[:160], "tb": traceback.format_exc()[-300:]})
+
+        results = {}
+        orch_core.Orchestrator.run_turn = fake_run_turn
+        try:
+            if nthreads == 1:
+                import contextvars
+                contextvars.copy_context().run(writer, 0)
+            else:
+                ths = [threading.Thread(target=writer, args=(w,)) for w in range(nthreads)]
+                for t in ths:
+                    t.start()
+                for t in ths:
+                    t.join(60)
+        finally:
+            orch_core.Orchestrator.run_turn = real_run_turn
+            for k, v in old_env.items():
+                if v is None:
+                    os.environ.pop(k, None)
+                else:
+                    os.environ[k] = v
+        sess.evaluations += 1
+        sess.count("capture_histories")
+        sess.count("capture_ops", sum(len(x) for x in scripts))
+        sess.count("nested_captures", sum(1 for ops in scripts for i, o in enumerate(ops) if o[0] == "open" and any(q[0] == "open" for q in ops[:i])))
+        if not problems and len(results) == nthreads:
+            shared = on_disk("shared.jsonl")
+            for w in range(nthreads):
+                want = [r for s_, r in results[w] if s_ == "shared.jsonl"]
+                got = [r for r in shared if r.get("w") == w]
+                if got != want:
+                    problems.append({"writer": w, "stream": "shared.jsonl", "on_disk": got[:8], "model": want[:8]})
+            if on_disk("t1.jsonl"):
+                problems.append({"stream": "t1.jsonl", "on_disk": "records of a compute phase reached the disk although its buffer was never flushed"})
+        if problems:
+            sess.violation("capture:records-reordered-lost-or-written-early", case, problems[:3])
+        else:
+            sess.nontrivial.add(chash(("capture", json.dumps(scripts))))
+
+
 def gen_writer_case(rng, tier):
     big = tier == "thorough"
     sizes = rng.choice([[1, 10, 200], [1, 200, 5000, 70000], [100, 70000, 300000], [1, 1048576] if big else [1, 200000], [50]])
@@ -839,6 +1000,8 @@ def _work(args):
                 scripted_case(rng, sess)
             for _ in range(15 if q else 300):
                 fresh_dir_case(rng, sess)
+            for _ in range(40 if q else 1500):
+                capture_case(rng, sess)
     except Exception as ex:
         import traceback
         sess.inconclusive_because(f"harness error {type(ex).__name__}: {ex} @ {traceback.format_exc()[-500:]}")
@@ -868,6 +1031,8 @@ def main(tier: str, seed: int):
     sess.require("fresh_directory_first_appends", 30)
     sess.require("rewrites_under_short_writes", 8)
     sess.require("scripted_rotations", 10)
+    sess.require("capture_histories", 100)
+    sess.require("nested_captures", 50)
     sess.finish()
 
 
@@ -878,6 +1043,9 @@ def replay(body, tier, seed):
     rng = random.Random(0)
     if "threads" in case:
         writers_case(case, sess)
+    elif "capture_scripts" in case:
+        for _ in range(300):
+            capture_case(rng, sess)
     elif "bufs" in case:
         for _ in range(200):
             staging_case(rng, sess)
